@@ -21,19 +21,19 @@ def b2z(x):
 
 
 # =============================================================================================== BaseMatching.next
-def vc_next(prog, family='base', mpt=True, opt=True, max_dist_inf=False, min_lp_inf=False):
+def vc_next(prog, family='base', mpt=True, opt=True, max_dist_inf=False, min_lp_inf=False, preset_proj=False):
     """K-next.  family: 'base' (BaseMatching, no props) or 'distance' (DistanceMatching, props d_o,d_s,lpt,lpe)."""
     fv = prog.func(K.BASE, 'BaseMatching.next')
     mcls = 'DistanceMatcher' if family == 'distance' else 'BaseMatcher'
     ecls = 'DistanceMatching' if family == 'distance' else 'BaseMatching'
-    scen = f"{family},{'node' if mpt else 'edge'}x{'obs' if opt else 'obsseg'},{'maxd=inf' if max_dist_inf else 'maxd'},{'minlp=-inf' if min_lp_inf else 'minlp'}"
+    scen = f"{family},{'node' if mpt else 'edge'}x{'obs' if opt else 'obsseg'},{'maxd=inf' if max_dist_inf else 'maxd'},{'minlp=-inf' if min_lp_inf else 'minlp'}{',preset-projection' if preset_proj else ''}"
     st = {}
 
     def setup(ctx, it):
         matcher = K.mk_matcher(mcls, max_dist_inf, min_lp_inf)
         em0 = K.mk_segment('pm', True)
         me = K.mk_matching('self', matcher, ecls, edge_m=em0, edge_o=K.mk_segment('po', True), stop=False)
-        edge_m, edge_o = K.mk_segment('m', mpt), K.mk_segment('o', opt)
+        edge_m, edge_o = K.mk_segment('m', mpt, with_proj=preset_proj), K.mk_segment('o', opt, with_proj=preset_proj)
         obs, obs_ne = I('obs'), I('obs_ne')
         ctx.assume(*K.matcher_requires(matcher))
         ctx.assume(*K.matching_invariant(me))
